@@ -1,12 +1,12 @@
 """check configuration for C13 (loaded by lib/zvprops.py)"""
 
-PROP = {'gen_tables': ['Delegates', 'TransMultiWS', 'TransLocked'],
+PROP = {'gen_tables': ['Delegates', 'TransMultiWS', 'TransLocked', 'TransWriters'],
  'rule': 'ops: exhaustive outcome vectors ({full,short,zero}×{err,nil})^k for k≤3 (quick) / k≤4 (thorough) sinks, random vectors, all Sync error '
          'subsets for ≤5 sinks, AddSync/Lock relay grid, payload classes × 4 zap writers, concurrent Lock programs; non-trivial = ≥2 sinks with ≥2 '
          'distinct counts / ≥1 sync error / non-empty payload; distinct = distinct canonical op JSON',
  'assumptions': ['multierr.Append keeps every non-nil error in order (checked by the oracle through multierr.Errors)',
                  "Go's sync.Mutex provides mutual exclusion (lock_mutex is a theorem about the protocol model)"],
- 'technique': 'Lean 4: fold invariants of the multi-syncer loop (minimum, all errors, identical bytes), mutex machine instance for Lock; tie: exhaustive outcome vectors + deterministic mutual-exclusion probe + translated source (multiWriteSyncer.Write/Sync loops, lockedWriteSyncer.Write/Sync = Lock, call, Unlock) + Gen/Delegates',
+ 'technique': 'Lean 4: fold invariants of the multi-syncer loop (minimum, all errors, identical bytes), mutex machine instance for Lock; tie: exhaustive outcome vectors + deterministic mutual-exclusion probe + translated source (multiWriteSyncer.Write/Sync loops, lockedWriteSyncer.Write/Sync = Lock, call, Unlock; the std-log bridge writer, TestingWriter.Write, AddSync, Lock, NewMultiWriteSyncer) + Gen/Delegates',
  'level_text': 'The count/error/delivery rules are proved for every number of sinks and every outcome vector; all vectors up to 3 (4) sinks are also executed on the real code.',
  'level_note': "Go's sync.Mutex is trusted to be a mutex; BufferedWriteSyncer over faulty sinks is covered by oracle-only ops here and modelled under C12.",
 }
